@@ -652,12 +652,16 @@ def _setup_rebinds(ctx: Ctx) -> set:
                 flat = []
                 for t in n.targets:
                     flat += list(t.elts) if isinstance(t, ast.Tuple) else [t]
-                if not any(norm_src(t) == "self.results" for t in flat):
+                own_t = [norm_src(t) for t in flat if norm_src(t) in ("self.results", "self.dag.results")]
+                if not own_t:
                     continue
                 v = n.value.value if isinstance(n.value, ast.Await) else n.value
                 if isinstance(v, ast.Call) and (dotted(v.func) or "").split(".")[-1] in ("sync_execute", "async_execute"):
                     g = next((k.value for k in v.keywords if k.arg == "graph"), None)
-                    if g is not None and _graph_origin(ctx, f, g) == "setup-only":
+                    rs_ = next((k.value for k in v.keywords if k.arg == "results"), None)
+                    # (the executor's own form `.., self.dag.results, .. = scheduler(results=self.dag.results, graph=<setup-only>)` is the same
+                    # licence written on the executor's side: it starts from the map it re-binds)
+                    if g is not None and _graph_origin(ctx, f, g) == "setup-only" and (own_t[0] == "self.results" or (rs_ is not None and norm_src(rs_) == own_t[0])):
                         out.add(id(n))
         return out
     return ctx.memo("own.setup_rebinds", build)
